@@ -18,6 +18,9 @@ __all__ = [
 ]
 
 
+_PHI_TABLE = []
+
+
 class Infeasible(BaseException):
     """raised to abandon a path whose path condition became unsatisfiable"""
 
@@ -40,6 +43,7 @@ class Ctx:
         self.reset()
 
     def reset(self):
+        del _PHI_TABLE[:]       # z3 terms of the old context
         # a fresh z3 context per work item: solver behaviour (term ids, variable orders) then does
         # not depend on which items the same worker process handled before
         try:
@@ -218,6 +222,10 @@ class Ctx:
 
     def decide(self, cond):
         """cond: z3 BoolRef.  Return a python bool, forking if both outcomes are feasible."""
+        sd0 = sign_decide(cond, self.base_signs())      # on the term as written (simplify may obscure the sign structure)
+        if sd0 is not None:
+            self.nsign += 1
+            return sd0
         cond = z3.simplify(cond)
         if z3.is_true(cond):
             return True
@@ -392,9 +400,17 @@ def _sign_of(e, base, memo):
     if k == z3.Z3_OP_POWER and z3.is_rational_value(ch[1]) and ch[1].denominator_as_long() == 1:
         n = ch[1].numerator_as_long()
         a = sign_of(ch[0], base, memo)
+        if n == 0:
+            return POS
         if n % 2 == 0:
-            return POS if a in (POS, NEG) else ZERO if a == ZERO and n > 0 else NONNEG if n > 0 else UNK
-        return a if n > 0 else UNK
+            if a in (POS, NEG):
+                return POS
+            if n > 0:
+                return ZERO if a == ZERO else NONNEG
+            return UNK
+        if n > 0:
+            return a
+        return a if a in (POS, NEG) else UNK       # odd negative power of a non-zero base keeps the sign
     if k == z3.Z3_OP_ITE:
         a, b = sign_of(ch[1], base, memo), sign_of(ch[2], base, memo)
         if a == b:
@@ -424,6 +440,13 @@ def sign_decide(cond, base):
         if any(r is True for r in rs):
             return True
         return False if all(r is False for r in rs) else None
+    if z3.is_true(cond):
+        return True
+    if z3.is_false(cond):
+        return False
+    if z3.is_eq(cond) and z3.is_bool(cond.arg(0)):
+        ra, rb = sign_decide(cond.arg(0), base), sign_decide(cond.arg(1), base)
+        return None if ra is None or rb is None else (ra == rb)
     if not z3.is_app(cond) or cond.num_args() != 2 or not z3.is_real(cond.arg(0)):
         return None
     k = cond.decl().kind()
@@ -993,6 +1016,9 @@ def _axioms_for(name, args, r, others, light=False):
             ax.append(z3.Implies(z3.And(oa[0] >= 0, x >= 0, oa[0] > x), orr > r))
     elif name == "Phi":
         (x,) = args
+        for pt, lo, hi in _phi_table():
+            ax.append(z3.Implies(x <= pt, r <= hi))
+            ax.append(z3.Implies(x >= pt, r >= lo))
         ax.append(z3.And(r > 0, r < 1))
         ax.append(z3.Implies(x == 0, r == z3.RealVal("1/2")))
         ax.append(z3.Implies(x > 0, r > z3.RealVal("1/2")))
@@ -1013,6 +1039,30 @@ def _axioms_for(name, args, r, others, light=False):
                 ax.append(z3.Implies(oa[0] < x, orr > r))
                 ax.append(z3.Implies(oa[0] > x, orr < r))
     return ax
+
+
+def _phi_table():
+    """rigorous rational enclosures lo < Phi(p) < hi on a grid (quantitative knowledge about the normal cdf:
+    with monotonicity it confines Phi(x) for every x, which makes counterexamples that depend on the SIZE
+    of a tail probability replayable on the real function)"""
+    if not _PHI_TABLE:
+        import mpmath
+        mpmath.mp.dps = 60
+        pts = [Fraction(k, 4) for k in range(-48, 49)] + [Fraction(k) for k in (-38, -30, -25, -20, -16, -14, 14, 16, 20, 25, 30, 38)]
+        for p in sorted(set(pts)):
+            v = mpmath.ncdf(mpmath.mpf(p.numerator) / p.denominator)
+            if p <= 0:
+                lo_m, hi_m = v * (1 - mpmath.mpf(10) ** -20), v * (1 + mpmath.mpf(10) ** -20)
+            else:
+                t = mpmath.ncdf(-(mpmath.mpf(p.numerator) / p.denominator))
+                lo_m, hi_m = 1 - t * (1 + mpmath.mpf(10) ** -20), 1 - t * (1 - mpmath.mpf(10) ** -20)
+            def q(m, up):
+                # rational just below / above m with a 2^-400 grid (exactly representable)
+                sc = mpmath.mpf(2) ** 400
+                n = int(mpmath.floor(m * sc)) + (1 if up else 0)
+                return Fraction(n, 2 ** 400)
+            _PHI_TABLE.append((zexpr(SV(p)), zexpr(SV(q(lo_m, False))), zexpr(SV(q(hi_m, True)))))
+    return _PHI_TABLE
 
 
 CTX_MONOTONE_DEC = {}   # name -> (lo, hi): strictly decreasing stubs registered by harnesses
